@@ -63,6 +63,108 @@ theorem size_bounds (mn mx : Int) (sm : Nat) (hsm : 0 < sm) (c : Cbuf)
 
 /-! ### what the specification itself guarantees (independent of the index model) -/
 
+/-- every admissible answer of a write falls into one of these shapes -/
+theorem spec_write_shape (f f' : Spec.Fifo) (bs : List UInt8) (sz : Nat) (r : Int) (d : Nat)
+    (hfs : 0 < f.size) (h : Spec.write f bs sz = some (r, d, f')) :
+    (bs.length = 0 ∧ r = 0 ∧ d = 0 ∧ f' = f) ∨
+    (bs.length ≠ 0 ∧ f.size ≤ sz ∧ sz ≤ f.maxsize ∧
+      ((r = -1 ∧ d = 0 ∧ f'.q = f.q ∧ f.mode = .noDrop) ∨
+       (∃ k, 0 < k ∧ k ≤ bs.length ∧ r = (k : Int) ∧ (f.mode = .noDrop → k ≤ sz - f.q.length) ∧
+          d = k - (sz - f.q.length) ∧ (f.mode = .noDrop → d = 0) ∧
+          f'.q = Spec.lastN sz (f.q ++ bs.take k) ∧ f'.size = sz))) := by
+  by_cases h0 : bs.length = 0
+  · left
+    simp only [Spec.write, h0, if_true] at h
+    by_cases hs : sz = f.size
+    · simp only [hs, if_true, Option.some.injEq, Prod.mk.injEq] at h
+      obtain ⟨h1, h2, h3⟩ := h
+      exact ⟨h0, h1.symm, h2.symm, h3.symm⟩
+    · simp [hs] at h
+  · right
+    by_cases hadm : Spec.admitSize f sz = true
+    · have hs := (admitSize_iff f sz).1 hadm
+      refine ⟨h0, hs.1, hs.2, ?_⟩
+      cases hm : f.mode with
+      | noDrop =>
+        simp only [Spec.write, h0, if_false, hadm, Bool.not_true, Bool.false_eq_true, hm] at h
+        by_cases hlo : Spec.lossOk f sz (decide (min bs.length (sz - f.q.length) < bs.length)) = true
+        · simp only [hlo, Bool.not_true, Bool.false_eq_true, if_false] at h
+          by_cases hk : min bs.length (sz - f.q.length) = 0
+          · simp only [hk, if_true, Option.some.injEq, Prod.mk.injEq] at h
+            obtain ⟨h1, h2, h3⟩ := h
+            left; subst h3; exact ⟨h1.symm, h2.symm, rfl, rfl⟩
+          · simp only [hk, if_false, Option.some.injEq, Prod.mk.injEq] at h
+            obtain ⟨h1, h2, h3⟩ := h
+            right
+            refine ⟨min bs.length (sz - f.q.length), by omega, by omega, h1.symm, fun _ => by omega, ?_,
+              fun _ => h2.symm, ?_, ?_⟩
+            · omega
+            · subst h3; simp only [Spec.lastN, List.length_append, List.length_take]
+              have : f.q.length + min (min bs.length (sz - f.q.length)) bs.length - sz = 0 := by omega
+              rw [this]; simp
+            · subst h3; rfl
+        · simp [hlo] at h
+      | wrapOnce =>
+        simp only [Spec.write, h0, if_false, hadm, Bool.not_true, Bool.false_eq_true, hm] at h
+        split at h
+        · simp at h
+        · simp only [Option.some.injEq, Prod.mk.injEq] at h
+          obtain ⟨h1, h2, h3⟩ := h
+          right
+          have hpos : 0 < sz := by omega
+          exact ⟨min bs.length sz, by omega, by omega, h1.symm, (fun hc => by cases hc), h2.symm,
+            (fun hc => by cases hc), by subst h3; rfl, by subst h3; rfl⟩
+      | wrapMany =>
+        simp only [Spec.write, h0, if_false, hadm, Bool.not_true, Bool.false_eq_true, hm] at h
+        split at h
+        · simp at h
+        · simp only [Option.some.injEq, Prod.mk.injEq] at h
+          obtain ⟨h1, h2, h3⟩ := h
+          right
+          exact ⟨bs.length, by omega, by omega, h1.symm, (fun hc => by cases hc), h2.symm,
+            (fun hc => by cases hc), by subst h3; simp, by subst h3; rfl⟩
+    · simp [Spec.write, h0, hadm] at h
+
+/-- exact drop accounting: bytes held before + bytes accepted = bytes held after + bytes dropped,
+    and the buffer never holds more than its (reported) size -/
+theorem spec_write_conservation (f f' : Spec.Fifo) (bs : List UInt8) (sz : Nat) (r : Int) (d : Nat)
+    (hfs : 0 < f.size) (hq : f.q.length ≤ f.size) (h : Spec.write f bs sz = some (r, d, f')) (hr : 0 ≤ r) :
+    f.q.length + r.toNat = f'.q.length + d ∧ f'.q.length ≤ f'.size := by
+  rcases spec_write_shape f f' bs sz r d hfs h with ⟨_, h1, h2, h3⟩ | ⟨_, hs1, _, h4⟩
+  · subst h1 h2 h3; simp; exact hq
+  · rcases h4 with ⟨h1, _⟩ | ⟨k, hk0, hk1, hr', _, hd, _, hq', hsz⟩
+    · omega
+    · subst hr'
+      rw [hq', hsz, hd]
+      simp only [Spec.lastN, List.length_drop, List.length_append, List.length_take, Int.toNat_natCast]
+      omega
+
+/-- nothing is invented or reordered: the new queue is a suffix of "old queue ++ accepted prefix" -/
+theorem spec_write_suffix (f f' : Spec.Fifo) (bs : List UInt8) (sz : Nat) (r : Int) (d : Nat)
+    (hfs : 0 < f.size) (h : Spec.write f bs sz = some (r, d, f')) :
+    ∃ k, f'.q = (f.q ++ bs.take r.toNat).drop k := by
+  rcases spec_write_shape f f' bs sz r d hfs h with ⟨_, h1, _, h3⟩ | ⟨_, _, _, h4⟩
+  · subst h1 h3; exact ⟨0, by simp⟩
+  · rcases h4 with ⟨h1, _, hq', _⟩ | ⟨k, _, _, hr', _, _, _, hq', _⟩
+    · subst h1; exact ⟨0, by simp [hq']⟩
+    · subst hr'; exact ⟨(f.q ++ bs.take k).length - sz, by rw [hq']; simp [Spec.lastN]⟩
+
+/-- in no-drop mode a write never discards anything: it is shortened or refused -/
+theorem spec_nodrop_lossless (f f' : Spec.Fifo) (bs : List UInt8) (sz : Nat) (r : Int) (d : Nat)
+    (hfs : 0 < f.size) (hm : f.mode = .noDrop) (h : Spec.write f bs sz = some (r, d, f')) :
+    d = 0 ∧ (r = -1 ∨ r ≥ 0) ∧ f'.q = f.q ++ bs.take r.toNat := by
+  rcases spec_write_shape f f' bs sz r d hfs h with ⟨_, h1, h2, h3⟩ | ⟨_, _, _, h4⟩
+  · subst h1 h2 h3; simp
+  · rcases h4 with ⟨h1, h2, hq', _⟩ | ⟨k, _, _, hr', hk, _, hd0, hq', _⟩
+    · subst h1 h2; simp [hq']
+    · subst hr'
+      refine ⟨hd0 hm, by omega, ?_⟩
+      rw [hq']
+      have := hk hm
+      simp only [Spec.lastN, List.length_append, List.length_take, Int.toNat_natCast]
+      have hz : f.q.length + min k bs.length - sz = 0 := by omega
+      rw [hz]; simp
+
 /-- a line read is all or nothing: it returns 0 and changes nothing, or removes exactly the bytes it
     reports, and those bytes end in a newline -/
 theorem spec_readLine_whole (f : Spec.Fifo) (len lines : Int) (hl : lines ≥ -1) (hlen : len ≥ 0) :
